@@ -14,9 +14,10 @@ import (
 )
 
 type wsNetConn struct {
-	r   io.Reader
-	buf *bufio.Reader
-	w   io.Writer
+	nconn net.Conn
+	r     io.Reader
+	buf   *bufio.Reader
+	w     io.Writer
 }
 
 func (c *wsNetConn) Read(b []byte) (n int, err error) {
@@ -28,15 +29,15 @@ func (c *wsNetConn) Write(b []byte) (n int, err error) {
 }
 
 func (c *wsNetConn) Close() error {
-	panic("unimplemented")
+	return c.nconn.Close()
 }
 
 func (c *wsNetConn) LocalAddr() net.Addr {
-	panic("unimplemented")
+	return c.nconn.LocalAddr()
 }
 
 func (c *wsNetConn) RemoteAddr() net.Addr {
-	panic("unimplemented")
+	return c.nconn.RemoteAddr()
 }
 
 func (c *wsNetConn) SetDeadline(_ time.Time) error {
@@ -52,10 +53,11 @@ func (c *wsNetConn) SetWriteDeadline(_ time.Time) error {
 }
 
 type wsResponseWriter struct {
-	r   io.Reader
-	buf *bufio.Reader
-	w   io.Writer
-	req *http.Request
+	nconn net.Conn
+	r     io.Reader
+	buf   *bufio.Reader
+	w     io.Writer
+	req   *http.Request
 
 	h http.Header
 }
@@ -86,7 +88,7 @@ func (w *wsResponseWriter) WriteHeader(statusCode int) {
 }
 
 func (w *wsResponseWriter) Hijack() (net.Conn, *bufio.ReadWriter, error) {
-	return &wsNetConn{r: w.r, buf: w.buf, w: w.w}, bufio.NewReadWriter(w.buf, bufio.NewWriter(w.w)), nil
+	return &wsNetConn{nconn: w.nconn, r: w.r, buf: w.buf, w: w.w}, bufio.NewReadWriter(w.buf, bufio.NewWriter(w.w)), nil
 }
 
 type wsReader struct {
